@@ -227,6 +227,11 @@ Constructive(c) ==
         \cup {FileEdit(c, "alias_as_rule_name", f, InsAt(t, i, Define(t[i + 1], <<"b">>)), "reject") : i \in IndexOf(t, "RULE")}
         \cup {FileEdit(c, "repeated_operand", f, InsAt(t, EndOfConditions(t, j) + 1, <<op>> \o SubSeq(t, j + 1, EndOfConditions(t, j))), "reject") : j \in conds, op \in {"or"}}
         \cup {FileEdit(c, "repeated_operand", f, InsAt(t, EndOfConditions(t, j) + 1, <<"and", "(", "b", "or", "c", "or", "b", ")">>), "reject") : j \in conds}
+        (* cds(...) holds profile names joined by and / or / not and groups of those - no minimum(...) and no further cds(...),
+           however deep inside a group of the cds they sit *)
+        \cup {FileEdit(c, "nested_in_cds", f, InsAt(t, EndOfConditions(t, j) + 1,
+                        <<"and", "cds", "(", "e", "and", "(">> \o inner \o <<"or", "f", ")", ")">>), "reject") :
+                 j \in conds, inner \in {<<"minimum", "(", "2", ",", "[", "b", ",", "c", "]", ")">>, <<"cds", "(", "b", "and", "c", ")">>}}
         \cup {FileEdit(c, "repeated_option", f, InsAt(t, EndOfConditions(t, j) + 1, <<"and", "minimum", "(", "1", ",", "[", "e", ",", "f", ",", "e", "]", ")">>), "reject") : j \in conds}
         \cup {FileEdit(c, "missing_section", f, DelAt(DelAt(t, i), i), "reject") : i \in IndexOf(t, "CATEGORY") \cup IndexOf(t, "CUTOFF") \cup IndexOf(t, "NEIGHBOURHOOD")}
         \cup {FileEdit(c, "missing_section", f, DelAt(t, i), "reject") : i \in conds}
